@@ -5,7 +5,7 @@ over all sequence numbers x encodings x flags x address/text lengths and all ARS
 import json
 import os
 
-from harness import core
+from harness import core, gen
 from harness.catalogue import harvest
 
 
@@ -70,6 +70,10 @@ def run(ctx):
             p = C.from_bytes(b)
             r["parsed"] = tms_fields(p) if kind == "tms" else ars_fields(p)
             r["bytes2"] = list(p.as_bytes())
+            if len(samples) % 2:          # every other message is handled by a caller that edits its objects after use
+                seen = set()
+                gen.scribble(o, seen=seen)
+                gen.scribble(p, seen=seen)
         except Exception as ex:  # noqa
             r["err"] = type(ex).__name__
             if r["f"] is None:
